@@ -4,6 +4,7 @@ from .common import *
 from vsym.core import s_min
 
 PROPERTY = 'C09'
+DEBUG_LOG = ['cut1/vbs/blocked', 'cut1/ipm/blocked']      # obligations that are also explored with debug logging switched on
 PYTHON_O = ['cut1/vbs/blocked', 'cut1/ipm/unblocked']      # obligations that are also explored with the modules compiled as under python -O
 ASSUMPTIONS = [
     'file object = RopeFile; truncation = prefix of the writer output at a symbolic byte offset t (every offset 0..len)',
